@@ -62,6 +62,79 @@ Lemma install_membership_from_header cur cached header :
   install_membership cur cached header = header.
 Proof. unfold install_membership, save_member. reflexivity. Qed.
 
+(** ---- after the install (round 7) ---- *)
+
+(** installing the same snapshot a second time (a retried InstallSnapshot RPC, or the cached
+    header path followed by the file path) changes nothing *)
+Lemma install_idempotent recs live k : install recs (install recs live) k = install recs live k.
+Proof. unfold install. rewrite !load_records_spec. destruct (find_last recs k); reflexivity. Qed.
+
+(** two successive installs (the node fell behind twice): the newer snapshot wins wherever it
+    has a value, the older one shows through elsewhere, the follower's own value last *)
+Lemma install_twice_exact leader1 recs1 leader2 recs2 :
+  (forall k, find_last recs1 k = leader1 k) -> (forall k, find_last recs2 k = leader2 k) ->
+  forall live k,
+  install recs2 (install recs1 live) k =
+  match leader2 k with
+  | Some v => Some v
+  | None => match leader1 k with Some v => Some v | None => live k end
+  end.
+Proof.
+  intros F1 F2 live k. rewrite (install_live_state_exact leader2 recs2 F2).
+  rewrite (install_live_state_exact leader1 recs1 F1). reflexivity.
+Qed.
+
+(** hence, when the leader never dropped a key between the two snapshots, the second install
+    leaves exactly the leader's data on a node that started fresh *)
+Lemma install_twice_serves leader1 recs1 leader2 recs2 :
+  (forall k, find_last recs1 k = leader1 k) -> (forall k, find_last recs2 k = leader2 k) ->
+  (forall k, leader1 k <> None -> leader2 k <> None) ->
+  forall k, install recs2 (install recs1 st_init) k = leader2 k.
+Proof.
+  intros F1 F2 Hmono k. rewrite (install_twice_exact _ _ _ _ F1 F2).
+  destruct (leader2 k) eqn:E2; [reflexivity|]. destruct (leader1 k) eqn:E1; [|reflexivity].
+  exfalso. apply (Hmono k); [congruence|exact E2].
+Qed.
+
+(** the log suffix after the snapshot: applying the same committed writes to the leader's state
+    and to a follower that agrees with it keeps them equal — the node "keeps doing so" *)
+Definition apply_writes (ws : list (N * N)) (s : st) : st := load_records ws s.
+
+Lemma apply_writes_agree ws : forall s1 s2,
+  (forall k, s1 k = s2 k) -> forall k, apply_writes ws s1 k = apply_writes ws s2 k.
+Proof. intros s1 s2 H k. unfold apply_writes. rewrite !load_records_spec, H. reflexivity. Qed.
+
+Lemma install_then_follow leader recs ws live :
+  (forall k, find_last recs k = leader k) ->
+  (forall k, live k <> None -> leader k <> None) ->
+  forall k, apply_writes ws (install recs live) k = apply_writes ws leader k.
+Proof.
+  intros F H. apply apply_writes_agree. exact (install_live_state_partial leader recs F live H).
+Qed.
+
+(** ... and after a restart at any later time (snapshot into fresh components, then the suffix) *)
+Lemma restart_then_follow leader recs ws :
+  (forall k, find_last recs k = leader k) ->
+  forall k, apply_writes ws (restart_after_install recs) k = apply_writes ws leader k.
+Proof. intros F. apply apply_writes_agree. exact (install_then_restart_serves leader recs F). Qed.
+
+(** a stale key (the recorded finding) is healed by the restart, and only the keys the leader
+    dropped can be stale at all *)
+Lemma install_stale_only_dropped leader recs live k :
+  (forall k, find_last recs k = leader k) ->
+  install recs live k <> leader k -> leader k = None /\ live k <> None /\ restart_after_install recs k = None.
+Proof.
+  intros F Hne. rewrite (install_live_state_exact leader recs F) in Hne.
+  destruct (leader k) eqn:E; [congruence|]. split; [reflexivity|]. split; [exact Hne|].
+  rewrite (install_then_restart_serves leader recs F). exact E.
+Qed.
+
+Example install_twice_example :
+  let recs1 := [(1, 10); (2, 20)] in let recs2 := [(1, 11); (2, 20); (3, 30)] in
+  install recs2 (install recs1 st_init) 1 = Some 11 /\ install recs2 (install recs1 st_init) 3 = Some 30 /\
+  install recs1 (install recs1 (st_set st_init 7 70)) 7 = Some 70.
+Proof. vm_compute. repeat split. Qed.
+
 Example install_example :
   let leader := st_set (st_set st_init 1 10) 2 20 in
   let recs := [(1, 10); (2, 20)] in
